@@ -266,6 +266,13 @@ def prog_corr(ctx):
                 for i, (dns, nm) in enumerate(decls[:n_reg]):
                     tbl.setdefault('.'.join(dns + [nm]), i)
                 want = gen_idl.py_resolve(tbl, list(ns), name)
+                if want is None and bid is not None:
+                    # unknown at the end of its own file (diagnosed there, checked below); the importer retried it later
+                    full = {}
+                    for i2, (dns2, nm2) in enumerate(decls):
+                        full.setdefault('.'.join(dns2 + [nm2]), i2)
+                    if gen_idl.py_resolve(full, list(ns), name) == bid and any(it['code'] == 170 for it in (o.get('exc') or {}).get('items', [])):
+                        continue
                 if want != bid:
                     ctx.add_violation({'kind': 'wrong-binding', 'level': 'program', 'absolute': name.startswith('.')},
                                       "reference '%s' in namespace %s of %s bound to %s, lexical scoping gives %s" %
@@ -287,7 +294,13 @@ Definition query := (nat * list string * string * option nat)%type.
 Definition q_ok (ds : list decl) (q : query) : bool :=
   let '(n, ns, name, e) := q in
   match register_all [] (firstn n ds) with
-  | Some r => onat_eqb (resolve r ns name) e
+  | Some r =>
+      (* a reference that is unknown when its own file is resolved gets its unknown-type diagnostic there; the importing parser
+         tries unresolved references again at its own end, so the binding dumped afterwards may be a later declaration's *)
+      match resolve r ns name, register_all [] ds with
+      | None, Some rall => onat_eqb (resolve rall ns name) e || onat_eqb None e
+      | got, _ => onat_eqb got e
+      end
   | None => false
   end.
 Definition case_ok (c : list decl * bool * list query) : bool :=
